@@ -2,7 +2,7 @@
    ExtrOcamlBasic only; N, Z, positive and nat stay the extracted inductive types. *)
 Require Extraction.
 Require Import ExtrOcamlBasic.
-From VpnModel Require Import Base Dissect RangeMatch Nonce Replay Interval Netmask Base62 Table TableSys Core CoreSys Sha512 Beacon Keys Conn PeerCrypto PcSys NodeInfo InitMsg Node NodeSys.
+From VpnModel Require Import Base Dissect RangeMatch Nonce Replay Interval Netmask Base62 Table TableSys Core CoreSys Sha512 Beacon Keys Conn PeerCrypto PcSys NodeInfo InitMsg Node NodeSys ConfigMerge.
 Extraction Language OCaml.
 Separate Extraction
   Base.be_val Base.be_enc Base.list_eqb
@@ -23,4 +23,5 @@ Separate Extraction
   NodeSys.srun NodeSys.sys0 Node.salt_key
   InitMsg.read_from InitMsg.write_body Conn.rot_encode Conn.rot_decode
   PcSys.prun PcSys.pst0 PcSys.always_ok Conn.select_algorithm
-  CoreSys.crun CoreSys.cst_init.
+  CoreSys.crun CoreSys.cst_init
+  ConfigMerge.effective ConfigMerge.file_roundtrip.
